@@ -242,6 +242,7 @@ def run_history(hist: list[tuple], record_release=None):
     for _ in range(3):  # pre-populate so that ID ranges of the two maps overlap
         vmf2.add_brush(vmf2.make_prism(Vec(0, 0, 0), Vec(8, 8, 8)).solid)
         vmf2.create_ent('info_target')
+        vmf2.create_ent('info_node', nodeid='1')
         g2 = EntityGroup(vmf2)
         vmf2.groups[g2.id] = g2
         vmf2.vis_tree.append(VisGroup(vmf2, 'own'))
@@ -293,7 +294,7 @@ def run_history(hist: list[tuple], record_release=None):
                 objs.append([kind, o, True])
             elif op == 'xcopy':     # copy into the other map
                 k = ev[1] % len(objs) if objs else None
-                if k is None or objs[k][1] is None or objs[k][0] in ('vischild', 'node'):
+                if k is None or objs[k][1] is None or objs[k][0] == 'vischild':
                     continue
                 kind, src, _ = objs[k]
                 if kind == 'group':
@@ -307,7 +308,7 @@ def run_history(hist: list[tuple], record_release=None):
                     del o
                     continue
                 o = src.copy(vmf_file=vmf2)
-                if kind in ('ent', 'brushent'):
+                if kind in ('ent', 'brushent', 'node'):
                     vmf2.add_ent(o)
                 else:
                     vmf2.add_brush(o)
@@ -795,7 +796,7 @@ NODE_PRE = PRE + '''
 Definition nobs (w : nworld) : list Z :=
   flat_map (fun o => [match nid o with Some n => n | None => -9 end; if nalive o then 1 else 0; if ninmap o then 1 else 0]) (nents w).
 Definition nfull (es : list nev) : list Z :=
-  let w := nrun node_realloc_on_add node_release_on_remove node_release_in_del es in
+  let w := nrun node_realloc_on_add node_release_on_remove node_release_in_del node_copy_registers es in
   nobs w ++ [match get_id (-1) (nman w) with Some (i, _) => i | None => -3 end].
 '''
 
@@ -842,7 +843,19 @@ def gen_node_case(rng: random.Random, n_ev: int):
             o = ents[k]
             if r < 0.45:
                 d, val = value()
-                o[0][rng.choice(['nodeid', 'NODEID'])] = val
+                how = rng.randrange(5)
+                if how < 2:
+                    o[0][rng.choice(['nodeid', 'NODEID'])] = val
+                elif how == 2:      # MutableMapping.update -> __setitem__
+                    o[0].update({rng.choice(['nodeid', 'NodeID']): val, 'spawnflags': '0'})
+                elif how == 3:
+                    o[0].update(nodeid=val)
+                else:               # the deprecated `ent.keys = {...}` setter: clear_keys() then update()
+                    import warnings
+                    with warnings.catch_warnings():
+                        warnings.simplefilter('ignore')
+                        o[0].keys = {'classname': 'info_node', 'nodeid': val}
+                    evs.append(f'NDel {k}%nat')
                 evs.append(f'NSet {k}%nat {opt(d)}')
             elif r < 0.55:
                 how = rng.randrange(3)
@@ -931,7 +944,7 @@ def corr_node(ck: Ck) -> None:
 # ------------------------------------------------------------------------------------------------ VMF.parse
 PARSE_PRE = PRE + '''
 Definition wids (k : kind) (es : list wev) : list Z := live_ids_in 0%nat (wrun (release_on_remove k) (copy_to_dest k) es).
-Definition nlive (es : list nev) : list Z := nids (nents (nrun node_realloc_on_add node_release_on_remove node_release_in_del es)).
+Definition nlive (es : list nev) : list Z := nids (nents (nrun node_realloc_on_add node_release_on_remove node_release_in_del node_copy_registers es)).
 '''
 _ID_POOL = [None, None, -1, 0, -2, 1, 1, 2, 2, 3, 4, 7]
 
@@ -1123,6 +1136,7 @@ def run(ck: Ck) -> None:
             'visgroup_copies_allocate_in_destination_map': 'copy_to_dest KVis',
             'group_copies_allocate_in_destination_map': 'copy_to_dest KGroup',
             'node_id_not_released_on_remove': 'negb node_release_on_remove',
+            'every_keyvalue_write_goes_through_node_registration': 'keys_writes_registered',
             'no_unclassified_release_site': 'forallb (fun x : kind * site * String.string => match snd (fst x) with SOther => false | _ => true end) release_sites',
         })
         corr_idman(ck)
@@ -1156,6 +1170,7 @@ def run(ck: Ck) -> None:
         ck.explain('correspondence:fixup')
     if has('node-id-'):
         ck.explain('instance:node_id_not_released_on_remove')
+        ck.explain('instance:every_keyvalue_write_goes_through_node_registration')
         ck.explain('correspondence:node')
     if has('-id-nonpositive'):
         ck.explain('instance:idman_hint_lowered_only_by_positive_ids')
